@@ -275,3 +275,129 @@ func VerifH_C12_kernels() {
 	r.Order(order)
 	vpAssert(r.rank[order[0]] <= r.rank[order[1]], "ranking-orders-better-score-first")
 }
+
+// VerifH_C12_timedWorker: the real worker.Run under virtual time (timers
+// with concrete durations fire in deadline order, time only passes when
+// every goroutine is blocked).  A request with a 10 s timeout is handed to
+// a peer that sends messages at chosen instants, each either unrelated to
+// the request (no progress), partial progress, or the answer.  The worker
+// must report the request as timed out exactly 10 s after its last
+// progress - not earlier, and no later however chatty the peer is - so
+// that the dispatcher can re-issue it.
+func VerifH_C12_timedWorker() {
+	vpOpt("clock", 1)
+	vpOpt("timed", 1)
+	vpOpt("timers", 8)
+	const T = 10 * time.Second
+	p := &vpPeer{addr: "a", msgs: make(chan wire.Message, 8), disconnect: make(chan struct{})}
+	w := NewWorker(p).(*worker)
+	results := make(chan *jobResult, 4)
+	quit := make(chan struct{})
+	go w.Run(results, quit)
+
+	kinds := []int{}
+	job := &queryJob{index: 1, timeout: T, cancelChan: make(chan struct{}), internalCancelChan: make(chan struct{}),
+		Request: &Request{Req: wire.NewMsgPing(1), HandleResp: func(req, resp wire.Message, addr string) Progress {
+			k := kinds[0]
+			kinds = kinds[1:]
+			switch k {
+			case 1:
+				return Progress{Progressed: true}
+			case 2:
+				return Progress{Finished: true, Progressed: true}
+			}
+			return Progress{}
+		}}}
+	w.NewJob() <- job
+	vpQuiesce()
+
+	// messages arrive 4 s or 7 s apart
+	now := time.Duration(0)
+	lastProgress := time.Duration(0)
+	n := vpRange("messages", 0, vpParam("maxmsgs", 3))
+	answered := false
+	var got *jobResult
+	poll := func() {
+		select {
+		case r := <-results:
+			got = r
+		default:
+		}
+	}
+	for k := 0; k < n && got == nil; k++ {
+		gap := []time.Duration{4 * time.Second, 7 * time.Second}[vpRange("gap", 0, 1)]
+		// the deadline may pass while we wait for the next message
+		if now+gap > lastProgress+T {
+			time.Sleep(lastProgress + T - now + time.Millisecond)
+			now = lastProgress + T + time.Millisecond
+			vpQuiesce()
+			poll()
+			vpReach("deadline-passed-between-messages")
+			vpAssert(got != nil && got.err == ErrQueryTimeout, "timeout-reported-at-the-deadline-despite-earlier-unrelated-messages")
+			break
+		}
+		time.Sleep(gap)
+		now += gap
+		poll()
+		if got != nil && got.err != nil {
+			vpNote("early verdict: " + got.err.Error())
+		}
+		vpAssert(got == nil, "no-verdict-before-the-deadline")
+		kind := vpRange("msgKind", 0, 2)
+		kinds = append(kinds, kind)
+		p.msgs <- wire.NewMsgPong(uint64(k))
+		vpQuiesce()
+		switch kind {
+		case 1:
+			lastProgress = now
+			vpReach("progress")
+		case 2:
+			answered = true
+		}
+		if answered {
+			poll()
+			vpReach("answered")
+			vpAssert(got != nil && got.err == nil, "answer-reported-as-success")
+			break
+		}
+	}
+	if got == nil {
+		// silence from now on: the verdict comes exactly at the deadline
+		if lastProgress+T-now > time.Second {
+			time.Sleep(lastProgress + T - now - time.Second)
+			vpQuiesce()
+			poll()
+			vpAssert(got == nil, "no-verdict-before-the-deadline")
+			time.Sleep(time.Second + time.Millisecond)
+		} else {
+			time.Sleep(lastProgress + T - now + time.Millisecond)
+		}
+		vpQuiesce()
+		poll()
+		vpReach("deadline-passed-in-silence")
+		vpAssert(got != nil && got.err == ErrQueryTimeout, "timeout-reported-at-the-deadline")
+	}
+	close(quit)
+}
+
+// VerifH_C12_timedSmoke: the virtual-time model itself.
+func VerifH_C12_timedSmoke() {
+	vpOpt("clock", 1)
+	vpOpt("timed", 1)
+	vpOpt("timers", 4)
+	t := time.NewTimer(10 * time.Second)
+	time.Sleep(4 * time.Second)
+	select {
+	case <-t.C:
+		vpAssert(false, "smoke:timer-not-before-its-deadline")
+	default:
+		vpReach("smoke-early")
+	}
+	time.Sleep(7 * time.Second)
+	select {
+	case <-t.C:
+		vpReach("smoke-fired")
+	default:
+		vpAssert(false, "smoke:timer-fired-by-its-deadline")
+	}
+}
